@@ -225,6 +225,8 @@ def recover(s, i):
     """valid commands that put transceiver i back into a known state; each must be answered per the model"""
     m = s.model.trx[i]
     m.dirty = True
+    m.delay_ms = 0
+    s.cmd(i, "FAKE_TRXC_DELAY", ["0"])      # first: whatever delay hostile input configured is gone with this command
     s.cmd(i, "POWEROFF", [])
     m.running = False
     m.queue = []
